@@ -15,7 +15,7 @@ import (
 )
 
 const (
-	keyAlias          = "C05-compact-map-aliases-keys-2^32-apart"
+	keyAlias          = "C05-lookup-aliases-keys-4G-apart"
 	keyOverflowDelete = "C05-overflow-delete-twice-negative-size"
 	keyOverflowUpdate = "C05-overflow-update-keeps-old-high-offset-byte"
 	keyLevelDbCounts  = "C05-leveldb-reload-counts-distinct-keys"
